@@ -122,7 +122,7 @@ def run_instance(prog, db, classmap, cname, con, cargs, budget=6000):
                     x = subleft[0]
                     kind, detail = 'leftover', f'the cell of `{x.label}` is opened with begin_parse() and left with unread ' + '; '.join(x.remaining_desc())[:200]
                 elif sl.only_any():
-                    bad = routing_problem(con, res)
+                    bad = routing_problem(con, res) or lost_value_problem(it, orc, sl, res)
                     if not bad:
                         # the same value parsed a second time in the same process (same choices, equal field values, a fresh slice): the parser
                         # must read the second slice just as it read the first - whatever it remembers from earlier calls
@@ -260,6 +260,29 @@ def unjustified_rejection(it, sl, con):
         return None        # beyond the field's width: dead as well
     cons = ', '.join(' '.join(f[1]) for f in con['fields'] if f[0] == 'constraint') or 'none'
     return f'the value is refused when {x} {t} {y}, which the constraints of {con["name"]} ({cons}) do not exclude'
+
+
+def lost_value_problem(it, orc, sl, res):
+    """the parser returns every field with the encoded value: a field that is present in the encoding and was read must not come back as a
+    constant because of what its VALUE happens to be - e.g. `(bit and load()) or None`, which turns `just 0` into `nothing`.  Reported when the
+    attribute named after a field that was read holds a constant on a path that tested the truth of that field's value"""
+    if not isinstance(res, Inst):
+        return None
+    reads = list(sl.reads) + [r for x in getattr(it, 'subslices', []) for r in getattr(x, 'reads', [])]
+    by_name = {}
+    for name, sym in reads:
+        if name and isinstance(sym, Sym):
+            by_name.setdefault(name, []).append(sym)
+    labels = orc.labels[:orc.pos]
+    for attr, v in res.attrs.items():
+        syms = by_name.get(attr)
+        if not syms or len(syms) != 1 or not isinstance(v, K):
+            continue
+        nm = syms[0].name
+        if any(l.startswith('truth(') and nm in l for l in labels):
+            return (f'field {attr} is present in this encoding and was read, but the parser returns {v.v!r} for it on the path where the VALUE read is falsy '
+                    f'(a Maybe field holding `just 0` comes back as `nothing`)')
+    return None
 
 
 def routing_problem(con, res):
